@@ -22,7 +22,8 @@ EXPLANATION = (
     "warn(..., IncompleteDataWarning) directly whenever T != T_ref before "
     "returning the reference value. R06.5: the estimator's range is the "
     "intersection: first constituent range, then lower<-max, upper<-min, "
-    "None-tests by identity, inside the complete term loop. R06.6: "
+    "None-tests by identity (also for whether the estimate has a range at "
+    "all: 0 K is a bound), inside the complete term loop. R06.6: "
     "estimator methods hand their own T unchanged to every constituent.")
 NOT_DECIDED = "finiteness of the values returned inside the range"
 ASSUMPTIONS = ["np.any(c) of a comparison is true iff the comparison holds "
